@@ -328,7 +328,12 @@ def lenght_cases(draw):
     dim = draw(st.sampled_from([2, 2, 3]))
     P = draw(st.lists(st.lists(st.integers(-20, 20).map(lambda v: F(v, 4)), min_size=dim, max_size=dim),
                       min_size=n, max_size=n))
-    return {"U": U, "P": P, "num": draw(st.sampled_from(["float", "npfloat", "fracknots"]))}
+    # optionally a polynomial weight g(u) of degree <= 2 (values of either sign) integrated by an explicit rule
+    g = None
+    if draw(st.integers(0, 2)) == 0:
+        g = [draw(st.integers(-6, 6).map(lambda v: F(v, 2))) for _ in range(draw(st.integers(1, 3)))]
+    return {"U": U, "P": P, "num": draw(st.sampled_from(["float", "npfloat", "fracknots"])), "g": g,
+            "fam": draw(st.sampled_from(["closed", "open", "cheb", "gauss"])), "nnodes": draw(st.integers(3, 5))}
 
 
 def check_lenght(case, out):
@@ -365,6 +370,28 @@ def check_lenght(case, out):
     if abs(float(got) - total) > 1e-9 * max(1.0, total):
         out.fail("lenght-wrong", ("jump" if has_jump else "continuous") + ";" + num,
                  f"Integrate.lenght of polyline U={fU} P={pts} = {float(got)!r}, sum of segment lengths {total!r}")
+    if case.get("g"):
+        # int g(u) |C'(u)| du = sum over the segments of (length / span) * int_span g, g a polynomial of degree <= 2
+        coef = case["g"]
+        out.cls("weighted", "weight-takes-negative-values" if any(
+            sum(c * u ** i for i, c in enumerate(coef)) < 0 for u in bk) else "weight-non-negative-at-knots")
+
+        def gfun(u):
+            return sum(float(c) * u ** i for i, c in enumerate(coef))
+
+        def prim(u):
+            return sum(c * u ** (i + 1) / (i + 1) for i, c in enumerate(coef))
+        want = 0.0
+        for lo, hi in zip(bk[:-1], bk[1:]):
+            pa, pm = oracle.ceval(st_, lo), oracle.ceval(st_, (lo + hi) / 2)
+            seglen = float(sum((2 * (x - y)) ** 2 for x, y in zip(pm, pa))) ** 0.5
+            want += seglen / float(hi - lo) * float(prim(hi) - prim(lo))
+        gotw = Integrate.lenght(curve, gfun, METHODS[case["fam"]], case["nnodes"])
+        scale = max(1.0, total * max(abs(float(prim(hi) - prim(lo))) for lo, hi in zip(bk[:-1], bk[1:])), abs(want))
+        if abs(float(gotw) - want) > 1e-8 * scale:
+            out.fail("lenght-wrong", "weighted;" + case["fam"] + ";" + num,
+                     f"Integrate.lenght(curve, g, {METHODS[case['fam']]}, {case['nnodes']}) with g = {coef} (ascending powers) on polyline "
+                     f"U={fU} P={pts} = {float(gotw)!r}, exact {want!r}")
 
 
 FACETS = [
